@@ -28,6 +28,19 @@ CHECKS = {
              '"value at (i,j,k), nothing else"; the reference text is parsed back and looked up under the same name. Every '
              'segment and datatype is instantiated. Exhaustive over the tables.',
         note='trusted: tables define positions (field number = number in the name); reference encoder; 63 known table defects (D1-D3) keyed by full position map'),
+    'C07': dict(
+        engine=E1, design_ref='DESIGN.md section 7 C07',
+        technique='exhaustive enumeration of all injective role-to-character assignments over a punctuation pool x versions x two '
+                  'construction paths on the real API; oracle: reference encoder equality, read-back on every descendant, re-parse',
+        text='For 2.3, 2.5, 2.7 and 2.8.2 every injective assignment of the 5 roles (720) and, from 2.7, of the 6 roles (720) to a '
+             '6-character pool with regex-special members (every 6th assignment for the other 8 versions in quick; all assignments '
+             'over an 8-character pool in thorough) is used to build a message with a repeated field, a component pair, a '
+             'subcomponent pair and a text leaf containing every delimiter, through Message(encoding_chars=) and through '
+             'parse_message of the reference text: to_er7() must equal the reference encoding, to_mllp() must frame it, '
+             'encoding_chars must read back on the message and on every descendant, and parse_message(to_er7()) must recover the '
+             'set. Every single-defect set (each key missing, each pair of roles equal incl. truncation, non-dict, malformed '
+             'MSH-2) must raise InvalidEncodingChars at three entry points.',
+        note='trusted: reference encoder/escaper; pool excludes characters that occur in the recipe content'),
     'C09': dict(
         engine=E2, design_ref='DESIGN.md section 7 C09, section 3.2',
         technique='explicit-state breadth-first search over API histories of real objects (rebuild-by-replay, canonical '
